@@ -40,14 +40,13 @@ type GettyRemotingClient struct {
 }
 
 func GetGettyRemotingClient() *GettyRemotingClient {
-	if gettyRemotingClient == nil {
-		onceGettyRemotingClient.Do(func() {
-			gettyRemotingClient = &GettyRemotingClient{
-				idGenerator:   &atomic.Uint32{},
-				gettyRemoting: newGettyRemoting(),
-			}
-		})
-	}
+	// no unsynchronised peek at the pointer first: Once is what publishes it to the other goroutines
+	onceGettyRemotingClient.Do(func() {
+		gettyRemotingClient = &GettyRemotingClient{
+			idGenerator:   &atomic.Uint32{},
+			gettyRemoting: newGettyRemoting(),
+		}
+	})
 	return gettyRemotingClient
 }
 
